@@ -1,4 +1,4 @@
-package main
+package hv
 
 // Structural dump of hclsyntax ASTs (no ranges) in the S-expression wire format
 // shared with the Coq model's printer.
@@ -14,7 +14,7 @@ import (
 	"github.com/zclconf/go-cty/cty"
 )
 
-func opName(op *hclsyntax.Operation) string {
+func OpName(op *hclsyntax.Operation) string {
 	switch op {
 	case hclsyntax.OpLogicalOr:
 		return "or"
@@ -50,7 +50,7 @@ func opName(op *hclsyntax.Operation) string {
 	return "?op"
 }
 
-func ratString(f *big.Float) string {
+func RatString(f *big.Float) string {
 	if f.IsInf() {
 		if f.Sign() > 0 {
 			return "+inf"
@@ -67,11 +67,11 @@ func ratString(f *big.Float) string {
 	return r.Num().String() + "/" + r.Denom().String()
 }
 
-func hexAtom(s string) string { return fmt.Sprintf("#%x", s) }
+func HexAtom(s string) string { return fmt.Sprintf("#%x", s) }
 
-// dumpVal prints a cty value canonically: type-tagged, sets/maps sorted, marks as
+// DumpVal prints a cty value canonically: type-tagged, sets/maps sorted, marks as
 // sorted label lists, unknowns with their refinements.
-func dumpVal(v cty.Value) string {
+func DumpVal(v cty.Value) string {
 	if v == cty.NilVal {
 		return "(nilval)"
 	}
@@ -82,20 +82,20 @@ func dumpVal(v cty.Value) string {
 			ls = append(ls, fmt.Sprintf("%v", k))
 		}
 		sort.Strings(ls)
-		return "(mark (" + strings.Join(ls, " ") + ") " + dumpVal(u) + ")"
+		return "(mark (" + strings.Join(ls, " ") + ") " + DumpVal(u) + ")"
 	}
 	ty := v.Type()
 	if !v.IsKnown() {
-		return "(unk " + dumpType(ty) + dumpRefinements(v) + ")"
+		return "(unk " + DumpType(ty) + DumpRefinements(v) + ")"
 	}
 	if v.IsNull() {
-		return "(null " + dumpType(ty) + ")"
+		return "(null " + DumpType(ty) + ")"
 	}
 	switch {
 	case ty == cty.String:
-		return "(s " + hexAtom(v.AsString()) + ")"
+		return "(s " + HexAtom(v.AsString()) + ")"
 	case ty == cty.Number:
-		return "(n " + ratString(v.AsBigFloat()) + ")"
+		return "(n " + RatString(v.AsBigFloat()) + ")"
 	case ty == cty.Bool:
 		if v.True() {
 			return "(b t)"
@@ -111,31 +111,31 @@ func dumpVal(v cty.Value) string {
 		var parts []string
 		for it := v.ElementIterator(); it.Next(); {
 			_, ev := it.Element()
-			parts = append(parts, dumpVal(ev))
+			parts = append(parts, DumpVal(ev))
 		}
 		if ty.IsSetType() {
 			sort.Strings(parts)
 		}
 		hdr := kind
 		if !ty.IsTupleType() {
-			hdr += " " + dumpType(ty.ElementType())
+			hdr += " " + DumpType(ty.ElementType())
 		}
 		if len(parts) == 0 {
 			return "(" + hdr + ")"
 		}
 		return "(" + hdr + " " + strings.Join(parts, " ") + ")"
 	case ty.IsMapType() || ty.IsObjectType():
-		kind := "map " + dumpType(ty)
+		kind := "map " + DumpType(ty)
 		if ty.IsObjectType() {
 			kind = "obj"
 		} else {
-			kind = "map " + dumpType(ty.ElementType())
+			kind = "map " + DumpType(ty.ElementType())
 		}
 		var parts []string
 		for it := v.ElementIterator(); it.Next(); {
 			kv, ev := it.Element()
 			ks, _ := kv.Unmark()
-			parts = append(parts, "("+hexAtom(ks.AsString())+" "+dumpVal(ev)+")")
+			parts = append(parts, "("+HexAtom(ks.AsString())+" "+DumpVal(ev)+")")
 		}
 		sort.Strings(parts)
 		if len(parts) == 0 {
@@ -148,33 +148,33 @@ func dumpVal(v cty.Value) string {
 	return "(?val " + ty.FriendlyName() + ")"
 }
 
-func dumpRefinements(v cty.Value) string {
+func DumpRefinements(v cty.Value) string {
 	if v.Type() == cty.DynamicPseudoType {
 		return ""
 	}
-	rng := v.Range()
+	Rng := v.Range()
 	var parts []string
-	if rng.DefinitelyNotNull() {
+	if Rng.DefinitelyNotNull() {
 		parts = append(parts, "notnull")
 	}
 	ty := v.Type()
 	switch {
 	case ty == cty.String:
-		if p := rng.StringPrefix(); p != "" {
-			parts = append(parts, "(prefix "+hexAtom(p)+")")
+		if p := Rng.StringPrefix(); p != "" {
+			parts = append(parts, "(prefix "+HexAtom(p)+")")
 		}
 	case ty == cty.Number:
-		lo, loInc := rng.NumberLowerBound()
-		hi, hiInc := rng.NumberUpperBound()
+		lo, loInc := Rng.NumberLowerBound()
+		hi, hiInc := Rng.NumberUpperBound()
 		if lo.IsKnown() && !lo.RawEquals(cty.NegativeInfinity) {
-			parts = append(parts, fmt.Sprintf("(lo %s %v)", ratString(lo.AsBigFloat()), loInc))
+			parts = append(parts, fmt.Sprintf("(lo %s %v)", RatString(lo.AsBigFloat()), loInc))
 		}
 		if hi.IsKnown() && !hi.RawEquals(cty.PositiveInfinity) {
-			parts = append(parts, fmt.Sprintf("(hi %s %v)", ratString(hi.AsBigFloat()), hiInc))
+			parts = append(parts, fmt.Sprintf("(hi %s %v)", RatString(hi.AsBigFloat()), hiInc))
 		}
 	case ty.IsCollectionType():
-		lo := rng.LengthLowerBound()
-		hi := rng.LengthUpperBound()
+		lo := Rng.LengthLowerBound()
+		hi := Rng.LengthUpperBound()
 		if lo != 0 {
 			parts = append(parts, fmt.Sprintf("(lenlo %d)", lo))
 		}
@@ -188,7 +188,7 @@ func dumpRefinements(v cty.Value) string {
 	return " " + strings.Join(parts, " ")
 }
 
-func dumpType(ty cty.Type) string {
+func DumpType(ty cty.Type) string {
 	switch {
 	case ty == cty.String:
 		return "str"
@@ -199,15 +199,15 @@ func dumpType(ty cty.Type) string {
 	case ty == cty.DynamicPseudoType:
 		return "dyn"
 	case ty.IsListType():
-		return "(list " + dumpType(ty.ElementType()) + ")"
+		return "(list " + DumpType(ty.ElementType()) + ")"
 	case ty.IsSetType():
-		return "(set " + dumpType(ty.ElementType()) + ")"
+		return "(set " + DumpType(ty.ElementType()) + ")"
 	case ty.IsMapType():
-		return "(map " + dumpType(ty.ElementType()) + ")"
+		return "(map " + DumpType(ty.ElementType()) + ")"
 	case ty.IsTupleType():
 		parts := []string{"tuple"}
 		for _, e := range ty.TupleElementTypes() {
-			parts = append(parts, dumpType(e))
+			parts = append(parts, DumpType(e))
 		}
 		return "(" + strings.Join(parts, " ") + ")"
 	case ty.IsObjectType():
@@ -223,7 +223,7 @@ func dumpType(ty cty.Type) string {
 			if ty.AttributeOptional(k) {
 				opt = "?"
 			}
-			parts = append(parts, "("+hexAtom(k)+opt+" "+dumpType(at[k])+")")
+			parts = append(parts, "("+HexAtom(k)+opt+" "+DumpType(at[k])+")")
 		}
 		return "(" + strings.Join(parts, " ") + ")"
 	case ty.IsCapsuleType():
@@ -232,16 +232,16 @@ func dumpType(ty cty.Type) string {
 	return "?ty"
 }
 
-func dumpTraversal(t hcl.Traversal) string {
+func DumpTraversal(t hcl.Traversal) string {
 	var parts []string
 	for _, s := range t {
 		switch st := s.(type) {
 		case hcl.TraverseRoot:
-			parts = append(parts, "(root "+hexAtom(st.Name)+")")
+			parts = append(parts, "(root "+HexAtom(st.Name)+")")
 		case hcl.TraverseAttr:
-			parts = append(parts, "(attr "+hexAtom(st.Name)+")")
+			parts = append(parts, "(attr "+HexAtom(st.Name)+")")
 		case hcl.TraverseIndex:
-			parts = append(parts, "(index "+dumpVal(st.Key)+")")
+			parts = append(parts, "(index "+DumpVal(st.Key)+")")
 		case hcl.TraverseSplat:
 			parts = append(parts, "(splat)")
 		default:
@@ -251,56 +251,56 @@ func dumpTraversal(t hcl.Traversal) string {
 	return strings.Join(parts, " ")
 }
 
-func dumpExpr(sb *strings.Builder, e hclsyntax.Expression) {
+func DumpExpr(sb *strings.Builder, e hclsyntax.Expression) {
 	switch x := e.(type) {
 	case nil:
 		sb.WriteString("(nil)")
 	case *hclsyntax.LiteralValueExpr:
-		sb.WriteString("(lit " + dumpVal(x.Val) + ")")
+		sb.WriteString("(lit " + DumpVal(x.Val) + ")")
 	case *hclsyntax.ScopeTraversalExpr:
-		sb.WriteString("(trav " + dumpTraversal(x.Traversal) + ")")
+		sb.WriteString("(trav " + DumpTraversal(x.Traversal) + ")")
 	case *hclsyntax.RelativeTraversalExpr:
 		sb.WriteString("(reltrav ")
-		dumpExpr(sb, x.Source)
-		sb.WriteString(" " + dumpTraversal(x.Traversal) + ")")
+		DumpExpr(sb, x.Source)
+		sb.WriteString(" " + DumpTraversal(x.Traversal) + ")")
 	case *hclsyntax.FunctionCallExpr:
-		sb.WriteString("(call " + hexAtom(x.Name))
+		sb.WriteString("(call " + HexAtom(x.Name))
 		if x.ExpandFinal {
 			sb.WriteString(" expand")
 		}
 		for _, a := range x.Args {
 			sb.WriteString(" ")
-			dumpExpr(sb, a)
+			DumpExpr(sb, a)
 		}
 		sb.WriteString(")")
 	case *hclsyntax.ConditionalExpr:
 		sb.WriteString("(cond ")
-		dumpExpr(sb, x.Condition)
+		DumpExpr(sb, x.Condition)
 		sb.WriteString(" ")
-		dumpExpr(sb, x.TrueResult)
+		DumpExpr(sb, x.TrueResult)
 		sb.WriteString(" ")
-		dumpExpr(sb, x.FalseResult)
+		DumpExpr(sb, x.FalseResult)
 		sb.WriteString(")")
 	case *hclsyntax.IndexExpr:
-		sb.WriteString("(idx ")
-		dumpExpr(sb, x.Collection)
+		sb.WriteString("(Idx ")
+		DumpExpr(sb, x.Collection)
 		sb.WriteString(" ")
-		dumpExpr(sb, x.Key)
+		DumpExpr(sb, x.Key)
 		sb.WriteString(")")
 	case *hclsyntax.TupleConsExpr:
 		sb.WriteString("(tuple")
 		for _, a := range x.Exprs {
 			sb.WriteString(" ")
-			dumpExpr(sb, a)
+			DumpExpr(sb, a)
 		}
 		sb.WriteString(")")
 	case *hclsyntax.ObjectConsExpr:
 		sb.WriteString("(objcons")
 		for _, it := range x.Items {
 			sb.WriteString(" (")
-			dumpExpr(sb, it.KeyExpr)
+			DumpExpr(sb, it.KeyExpr)
 			sb.WriteString(" ")
-			dumpExpr(sb, it.ValueExpr)
+			DumpExpr(sb, it.ValueExpr)
 			sb.WriteString(")")
 		}
 		sb.WriteString(")")
@@ -309,57 +309,57 @@ func dumpExpr(sb *strings.Builder, e hclsyntax.Expression) {
 		if x.ForceNonLiteral {
 			sb.WriteString("force ")
 		}
-		dumpExpr(sb, x.Wrapped)
+		DumpExpr(sb, x.Wrapped)
 		sb.WriteString(")")
 	case *hclsyntax.ForExpr:
-		sb.WriteString("(for " + hexAtom(x.KeyVar) + " " + hexAtom(x.ValVar) + " ")
-		dumpExpr(sb, x.CollExpr)
+		sb.WriteString("(for " + HexAtom(x.KeyVar) + " " + HexAtom(x.ValVar) + " ")
+		DumpExpr(sb, x.CollExpr)
 		sb.WriteString(" ")
-		dumpExpr(sb, x.KeyExpr)
+		DumpExpr(sb, x.KeyExpr)
 		sb.WriteString(" ")
-		dumpExpr(sb, x.ValExpr)
+		DumpExpr(sb, x.ValExpr)
 		sb.WriteString(" ")
-		dumpExpr(sb, x.CondExpr)
+		DumpExpr(sb, x.CondExpr)
 		if x.Group {
 			sb.WriteString(" group")
 		}
 		sb.WriteString(")")
 	case *hclsyntax.SplatExpr:
 		sb.WriteString("(splat ")
-		dumpExpr(sb, x.Source)
+		DumpExpr(sb, x.Source)
 		sb.WriteString(" ")
-		dumpExpr(sb, x.Each)
+		DumpExpr(sb, x.Each)
 		sb.WriteString(")")
 	case *hclsyntax.AnonSymbolExpr:
 		sb.WriteString("(anon)")
 	case *hclsyntax.BinaryOpExpr:
-		sb.WriteString("(binop " + opName(x.Op) + " ")
-		dumpExpr(sb, x.LHS)
+		sb.WriteString("(binop " + OpName(x.Op) + " ")
+		DumpExpr(sb, x.LHS)
 		sb.WriteString(" ")
-		dumpExpr(sb, x.RHS)
+		DumpExpr(sb, x.RHS)
 		sb.WriteString(")")
 	case *hclsyntax.UnaryOpExpr:
-		sb.WriteString("(unop " + opName(x.Op) + " ")
-		dumpExpr(sb, x.Val)
+		sb.WriteString("(unop " + OpName(x.Op) + " ")
+		DumpExpr(sb, x.Val)
 		sb.WriteString(")")
 	case *hclsyntax.TemplateExpr:
 		sb.WriteString("(tmpl")
 		for _, p := range x.Parts {
 			sb.WriteString(" ")
-			dumpExpr(sb, p)
+			DumpExpr(sb, p)
 		}
 		sb.WriteString(")")
 	case *hclsyntax.TemplateJoinExpr:
 		sb.WriteString("(join ")
-		dumpExpr(sb, x.Tuple)
+		DumpExpr(sb, x.Tuple)
 		sb.WriteString(")")
 	case *hclsyntax.TemplateWrapExpr:
 		sb.WriteString("(wrap ")
-		dumpExpr(sb, x.Wrapped)
+		DumpExpr(sb, x.Wrapped)
 		sb.WriteString(")")
 	case *hclsyntax.ParenthesesExpr:
 		sb.WriteString("(paren ")
-		dumpExpr(sb, x.Expression)
+		DumpExpr(sb, x.Expression)
 		sb.WriteString(")")
 	case *hclsyntax.ExprSyntaxError:
 		sb.WriteString("(syntaxerror)")
@@ -368,13 +368,13 @@ func dumpExpr(sb *strings.Builder, e hclsyntax.Expression) {
 	}
 }
 
-func dumpExprS(e hclsyntax.Expression) string {
+func DumpExprS(e hclsyntax.Expression) string {
 	var sb strings.Builder
-	dumpExpr(&sb, e)
+	DumpExpr(&sb, e)
 	return sb.String()
 }
 
-func dumpBody(sb *strings.Builder, b *hclsyntax.Body) {
+func DumpBody(sb *strings.Builder, b *hclsyntax.Body) {
 	sb.WriteString("(body")
 	// attributes in source order
 	names := make([]string, 0, len(b.Attributes))
@@ -385,20 +385,20 @@ func dumpBody(sb *strings.Builder, b *hclsyntax.Body) {
 		return b.Attributes[names[i]].SrcRange.Start.Byte < b.Attributes[names[j]].SrcRange.Start.Byte
 	})
 	for _, n := range names {
-		sb.WriteString(" (attr " + hexAtom(n) + " ")
-		dumpExpr(sb, b.Attributes[n].Expr)
+		sb.WriteString(" (attr " + HexAtom(n) + " ")
+		DumpExpr(sb, b.Attributes[n].Expr)
 		sb.WriteString(")")
 	}
 	for _, bl := range b.Blocks {
-		sb.WriteString(" (block " + hexAtom(bl.Type) + " (")
+		sb.WriteString(" (block " + HexAtom(bl.Type) + " (")
 		for i, l := range bl.Labels {
 			if i > 0 {
 				sb.WriteString(" ")
 			}
-			sb.WriteString(hexAtom(l))
+			sb.WriteString(HexAtom(l))
 		}
 		sb.WriteString(") ")
-		dumpBody(sb, bl.Body)
+		DumpBody(sb, bl.Body)
 		sb.WriteString(")")
 	}
 	sb.WriteString(")")
